@@ -135,7 +135,7 @@ Print Assumptions C17_recv_construction_total.
 Theorem C17_esc_class_follows_code : forall ops,
   let r := rops_run udigit uspace ops in
   (forall e, get_esc r = Some e -> hd 0 e = code_class r /\ is245 (code_class r) = true) /\
-  (Forall (rop_ok uspace) ops -> code_2xx_5xx (r_code r) -> r_esc r <> EscFalse ->
+  (Forall (rop_ok udigit uspace) ops -> code_2xx_5xx (r_code r) -> r_esc r <> EscFalse ->
    forall t buf chunks, nonempty_chunks chunks -> buf ++ concat chunks = wire_of r ++ t ->
    exists r' buf' chunks',
      reply_recv udigit uspace buf chunks = GotReply r' buf' chunks' /\
@@ -147,3 +147,32 @@ Proof.
   exact (ops_roundtrip udigit uspace udigit_46 udigit_48 uspace_32 uspace_10 uspace_13 digit_space_disjoint udigit_245 ops t buf chunks Hok Hc Hf Hne Hs).
 Qed.
 Print Assumptions C17_esc_class_follows_code.
+
+(* Writes and copies interleaved with the setters in any way, on ONE object.
+   ROSend observes (Reply.send / IO.send_reply encodes reply.code and reply.message as
+   they are at that moment and keeps nothing on the object); ROCopy o is Reply.copy(o):
+   code, message and ESC assigned directly from o, no setter runs.  rops_sent lists the
+   objects as they stand at the sends, rops_wire is everything written.  (1) the k-th
+   write is the state reached by exactly the operations before it -- nothing of an
+   earlier write or an earlier content survives; (2) an ESC shown at a write has the
+   class of the code the object has at that write; (3) if every written state has a
+   code 2xx..5xx and its ESC is not switched off, the receiving side reads the writes
+   back one by one, in order, as the code and text of the object AT EACH WRITE, from
+   any segmentation, consuming exactly what was written. *)
+Theorem C17_send_reflects_current_state : forall ops,
+  let sent := rops_sent udigit uspace fresh_reply ops in
+  (forall pre post, ops = pre ++ ROSend :: post ->
+     sent = rops_sent udigit uspace fresh_reply pre ++ rops_run udigit uspace pre ::
+            rops_sent udigit uspace (rops_run udigit uspace pre) post) /\
+  (forall r e, In r sent -> get_esc r = Some e -> hd 0 e = code_class r) /\
+  (Forall (rop_ok udigit uspace) ops -> Forall sendable sent ->
+   forall t buf chunks, nonempty_chunks chunks -> buf ++ concat chunks = rops_wire udigit uspace ops ++ t ->
+   exists b' ch', recv_n udigit uspace (length sent) buf chunks = Some (map shown_of sent, b', ch') /\
+                  b' ++ concat ch' = t).
+Proof.
+  intros ops sent. split; [intros pre post E; subst ops sent; apply sent_at|].
+  split; [intros r e _ H; apply (esc_class r e H)|].
+  intros Hok Hsd t buf chunks Hne Hs.
+  exact (sends_roundtrip udigit uspace udigit_46 udigit_48 uspace_32 uspace_10 uspace_13 digit_space_disjoint udigit_245 ops t buf chunks Hok Hsd Hne Hs).
+Qed.
+Print Assumptions C17_send_reflects_current_state.
